@@ -10,7 +10,8 @@ cp $SRC/demo.py $W/_demo.py
 timeout 300 /venv/bin/python _demo.py > /tmp/seed_confirm/${PID}_$X.clean.out 2>&1; CLEAN=$?
 if git apply $SRC/patch.diff 2>/dev/null || patch -p1 -s --no-backup-if-mismatch < $SRC/patch.diff >/dev/null 2>&1; then APPLY=ok; else APPLY=FAIL; fi
 timeout 300 /venv/bin/python _demo.py > /tmp/seed_confirm/${PID}_$X.mut.out 2>&1; MUT=$?
-SUITE=$(timeout 900 /venv/bin/python -m pytest -q -p no:cacheprovider --timeout=900 -q tests 2>&1 | tail -1)
+git clean -Xfdq
+SUITE=$(timeout 900 /venv/bin/python -m pytest -q -p no:cacheprovider --timeout=900 -q tests 2>&1 | grep "^FAILED\|^ERROR" | sed 's/ - .*//' | tr '\n' ' ')
 git diff -- parglare > /tmp/seed_confirm/${PID}_$X.rebased.diff
 echo "$PID/$X apply=$APPLY demo_clean_exit=$CLEAN demo_mutated_exit=$MUT suite='$SUITE'" > $OUT
 cd /; git -C /repo worktree remove --force $W
